@@ -136,7 +136,8 @@ class Runner(object):
         if self.case.get('outcome_seed') is not None:
             from mistralsim import gen
             w.default_outcome = gen.default_outcome_fn(
-                self.case['outcome_seed'], self.case.get('p_err', 0.25))
+                self.case['outcome_seed'], self.case.get('p_err', 0.25),
+                special=self.case.get('outcome_special', True))
 
     def _install_row_order(self):
         mode = self.cfg.get('row_order', 'none')
